@@ -167,7 +167,8 @@ impl DerivedTS {
                     type WithoutGenerics = #generics;
                     type OptionInnerType = Self;
                     fn name() -> String { stringify!(#generics).to_owned() }
-                    fn inline() -> String { panic!("{} cannot be inlined", #name) }
+                    // inlining a type parameter within the generic declaration yields the parameter itself
+                    fn inline() -> String { stringify!(#generics).to_owned() }
                     fn inline_flattened() -> String { stringify!(#generics).to_owned() }
                     fn decl() -> String { panic!("{} cannot be declared", #name) }
                     fn decl_concrete() -> String { panic!("{} cannot be declared", #name) }
@@ -413,6 +414,10 @@ fn used_type_params<'ty, 'out>(
         Type::Tuple(TypeTuple { elems, .. }) => elems
             .iter()
             .for_each(|elem| used_type_params(out, elem, is_type_param)),
+        // `<Option<T> as TS>::OptionInnerType`, as generated for `#[ts(optional)]` fields
+        Type::Path(TypePath {
+            qself: Some(qself), ..
+        }) => used_type_params(out, &qself.ty, is_type_param),
         Type::Path(TypePath { qself: None, path }) => {
             let first = path.segments.first().unwrap();
             if is_type_param(&first.ident) {
